@@ -5,7 +5,7 @@ CONSTANTS
   MaxAttempts = 2
   ClearOnFail = TRUE
   ClearOnReadFail = TRUE
-  CtxEarly = FALSE
+  CtxEarly = TRUE
   ClearLate = FALSE
-  UseLock = FALSE
-INVARIANT Deterministic
+  UseLock = TRUE
+INVARIANT Isolation
